@@ -234,8 +234,8 @@ fn c20(tier: &str, seed: u64, replay: Option<Value>) -> Rep {
         return rep;
     }
     let thorough = tier == "thorough";
-    let per_rule = if thorough { 20_000 } else { 600 };
-    let nmut = if thorough { 2_000_000 } else { 100_000 };
+    let per_rule = if thorough { 20_000 } else { 1_500 };
+    let nmut = if thorough { 2_000_000 } else { 300_000 };
     let nthreads = 16usize;
     let mut handles = Vec::new();
     for t in 0..nthreads {
